@@ -16,6 +16,7 @@ import (
 	"github.com/oasisprotocol/oasis-core/go/common/keyformat"
 	"github.com/oasisprotocol/oasis-core/go/common/logging"
 	"github.com/oasisprotocol/oasis-core/go/storage/mkvs/db/api"
+	"github.com/oasisprotocol/oasis-core/go/storage/mkvs/db/verifhook"
 	"github.com/oasisprotocol/oasis-core/go/storage/mkvs/node"
 	"github.com/oasisprotocol/oasis-core/go/storage/mkvs/writelog"
 )
@@ -270,6 +271,7 @@ func (d *badgerNodeDB) cleanMultipartLocked(removeNodes bool) error {
 	if err := batch.Flush(); err != nil {
 		return err
 	}
+	verifhook.Point("badger.cleanmp.batch_flushed")
 
 	metaTx := d.db.NewTransactionAt(tsMetadata, true)
 	defer metaTx.Discard()
@@ -706,6 +708,7 @@ func (d *badgerNodeDB) Finalize(roots []node.Root) error { // nolint: gocyclo
 	if err := versionBatch.Flush(); err != nil {
 		return err
 	}
+	verifhook.Point("badger.finalize.batch_flushed")
 
 	// Save roots metadata if changed.
 	if rootsChanged {
@@ -722,6 +725,7 @@ func (d *badgerNodeDB) Finalize(roots []node.Root) error { // nolint: gocyclo
 	if err := tx.CommitAt(tsMetadata, nil); err != nil {
 		return fmt.Errorf("mkvs/badger: failed to commit metadata: %w", err)
 	}
+	verifhook.Point("badger.finalize.meta_committed")
 
 	// Clean multipart metadata if there is any.
 	if d.multipartVersion != multipartVersionNone {
@@ -834,6 +838,7 @@ func (d *badgerNodeDB) Prune(version uint64) error {
 	if err := batch.Flush(); err != nil {
 		return fmt.Errorf("mkvs/badger: failed to flush batch: %w", err)
 	}
+	verifhook.Point("badger.prune.batch_flushed")
 
 	// Update metadata.
 	if err := d.meta.setEarliestVersion(tx, version+1); err != nil {
@@ -1122,10 +1127,12 @@ func (ba *badgerBatch) Commit(root node.Root) error {
 		if err = ba.multipartNodes.Flush(); err != nil {
 			return fmt.Errorf("mkvs/badger: failed to flush node log batch: %w", err)
 		}
+		verifhook.Point("badger.commit.mplog_flushed")
 	}
 	if err = ba.bat.Flush(); err != nil {
 		return fmt.Errorf("mkvs/badger: failed to flush batch: %w", err)
 	}
+	verifhook.Point("badger.commit.nodes_flushed")
 
 	// Commit root metadata updates. This is done last, so in case we fail, we can still retry.
 	if err = tx.CommitAt(tsMetadata, nil); err != nil {
